@@ -538,7 +538,14 @@ where
                     return Ok(());
                 }
             }
-            Err(StoreError::NotFound) => {}
+            Err(StoreError::NotFound) => {
+                // The header is synced but not stored, i.e. it was pruned. Pruner removes
+                // an edge of the synced ranges only when it is after the sampling window,
+                // so everything below it is outside of the sampling window too.
+                if synced_ranges.contains(next_batch.end() + 1) {
+                    return Ok(());
+                }
+            }
             Err(e) => return Err(e.into()),
         }
 
